@@ -139,6 +139,14 @@ let parse_sval (s : string) : sval =
         | None -> failwith "bad dict entry") (split ';' inner))
   else SV (parse_value s)
 
+let atom_text = function
+  | AInt z -> "i:" ^ string_of_z z
+  | AStr n -> "n:" ^ ocaml_string_of n
+  | ABoolean b -> if b then "b:1" else "b:0"
+let plit_text = function
+  | PAtom a -> atom_text a
+  | PTup l -> "t:[" ^ String.concat "," (List.map atom_text l) ^ "]"
+
 let run (s : serializer) ctx pod z =
   match s_deserialize s ctx pod z with
   | None -> "EXC"
@@ -179,10 +187,12 @@ let () =
                 | Some p -> print_endline ((if safe_plit p then "safe " else "unsafe ") ^ hex_of (ocaml_string_of (print_plit p)))
                 | None -> print_endline "NONE")
             | SDict _ -> print_endline "NONE")
+         | ["q"] ->
+           (match parse_plit [] with Some p -> print_endline (plit_text p) | None -> print_endline "NONE")
          | ["q"; h] ->
            (* literal_eval of a text given as hex *)
            (match parse_plit (cs (unhex h)) with
-            | Some p -> print_endline (value_text (value_of_lit p))
+            | Some p -> print_endline (plit_text p)
             | None -> print_endline "NONE")
          | ["o"; s; ty] ->
            let s = parse_ser s and t = parse_ty ty in
